@@ -87,7 +87,8 @@ pub fn exec(rec: &Value, _st: &mut State) -> Value {
             let t = iso2(tv);
             let t2 = iso2(&rec["T2"]);
             let pts: Vec<Point2> = gvvi(rec, "pts").iter().map(|x| p2(x)).collect();
-            let c = Curve2::from_points(&pts, 1e-6, gb(rec, "fc")).expect("curve");
+            let tol = match gi_or(rec, "tol16", 0) { 0 => 1e-6, k => k as f64 / 16.0 };
+            let c = Curve2::from_points(&pts, tol, gb(rec, "fc")).expect("curve");
             let c1 = c.transformed_by(&t);
             let back = c1.transformed_by(&t.inverse());
             let seq = c1.transformed_by(&t2);
@@ -108,7 +109,8 @@ pub fn exec(rec: &Value, _st: &mut State) -> Value {
             let t = iso3(tv);
             let t2 = iso3(&rec["T2"]);
             let pts: Vec<Point3> = gvvi(rec, "pts").iter().map(|x| p3(x)).collect();
-            let c = Curve3::from_points(&pts, 1e-6).expect("curve");
+            let tol = match gi_or(rec, "tol16", 0) { 0 => 1e-6, k => k as f64 / 16.0 };
+            let c = Curve3::from_points(&pts, tol).expect("curve");
             let c1 = c.transformed_by(&t);
             let back = c1.transformed_by(&t.inverse());
             let seq = c1.transformed_by(&t2);
